@@ -12,7 +12,8 @@ use crate::proc::{HResult, HostStats, Proc};
 pub enum Op {
     Spawn { w: u64, entropy: u64 },
     Kill { w: u64 },
-    Expand { w: u64, input: usize },
+    /// `fmt` != 0: the same tokens are presented with PRNG-chosen blanks, newlines and comments
+    Expand { w: u64, input: usize, fmt: u64 },
     Clock { s: i64, ns: i64 },
     Pid { pid: i64 },
     Frag { w: u64, seed: u64, n: u64 },
@@ -115,9 +116,9 @@ pub fn apply(p: &mut Proc, inputs: &[String], op: &Op) -> HResult<Option<(u64, S
     match op {
         Op::Spawn { w, entropy } => p.spawn_worker(*w, *entropy).map(|_| None),
         Op::Kill { w } => p.kill_worker(*w).map(|_| None),
-        Op::Expand { w, input } => {
+        Op::Expand { w, input, fmt } => {
             p.register(*input as u64, &inputs[*input])?;
-            p.expand(*w, *input as u64).map(Some)
+            p.expand(*w, *input as u64, *fmt).map(Some)
         },
         Op::Clock { s, ns } => p.set_clock(*s, *ns).map(|_| None),
         Op::Pid { pid } => p.set_pid(*pid).map(|_| None),
@@ -180,8 +181,13 @@ fn op_to_json(op: &Op) -> J {
             J::obj().set("op", J::s("spawn")).set("w", J::i(*w)).set("entropy", J::s(format!("{entropy}")))
         },
         Op::Kill { w } => J::obj().set("op", J::s("kill")).set("w", J::i(*w)),
-        Op::Expand { w, input } => {
-            J::obj().set("op", J::s("expand")).set("w", J::i(*w)).set("input", J::i(*input as u64))
+        Op::Expand { w, input, fmt } => {
+            let j = J::obj().set("op", J::s("expand")).set("w", J::i(*w)).set("input", J::i(*input as u64));
+            if *fmt != 0 {
+                j.set("fmt", J::s(format!("{fmt}")))
+            } else {
+                j
+            }
         },
         Op::Clock { s, ns } => J::obj().set("op", J::s("clock")).set("s", J::i(*s)).set("ns", J::i(*ns)),
         Op::Pid { pid } => J::obj().set("op", J::s("pid")).set("pid", J::i(*pid)),
@@ -206,7 +212,7 @@ fn op_from_json(j: &J) -> Result<Op, String> {
     Ok(match kind {
         "spawn" => Op::Spawn { w: num("w")? as u64, entropy: num("entropy")? as u64 },
         "kill" => Op::Kill { w: num("w")? as u64 },
-        "expand" => Op::Expand { w: num("w")? as u64, input: num("input")? as usize },
+        "expand" => Op::Expand { w: num("w")? as u64, input: num("input")? as usize, fmt: num("fmt").unwrap_or(0) as u64 },
         "clock" => Op::Clock { s: num("s")? as i64, ns: num("ns")? as i64 },
         "pid" => Op::Pid { pid: num("pid")? as i64 },
         "fs_wipe" => Op::FsWipe,
